@@ -19,3 +19,6 @@ func (k *Kauri) VerifAgg() []hotstuff.ID {
 
 // VerifView returns the view of the aggregation round Kauri is in.
 func (k *Kauri) VerifView() hotstuff.View { return k.currentView }
+
+// VerifSenders returns the ids whose contributions were merged in the current aggregation round.
+func (k *Kauri) VerifSenders() []hotstuff.ID { return append([]hotstuff.ID{}, k.senders...) }
